@@ -262,11 +262,14 @@ func (g *gen) ufloat(d int) *Expr {
 
 func (g *gen) ucomplex(d int) *Expr {
 	if d <= 0 || g.r.Intn(4) == 0 {
-		switch g.r.Intn(4) {
-		case 0:
+		switch g.r.Intn(8) {
+		case 0, 1:
 			return g.ufloat(0)
-		case 1:
+		case 2, 3:
 			return &Expr{K: "bin", Op: g.pick([]string{"+", "-"}), X: g.ufloat(0), Y: lit("imag", g.pick(imagLits))}
+		case 4:
+			// a large imaginary part (the products of the parts can exceed 512 bits)
+			return &Expr{K: "bin", Op: "*", X: g.bigPow(), Y: lit("imag", g.pick(imagLits))}
 		}
 		return lit("imag", g.pick(imagLits))
 	}
